@@ -1414,3 +1414,322 @@ def r_commutative_default_symmetric(prog: Program, col: Collector, refs: Refs, c
                   f"`{op.var}` is treated as commutative ({ab}) but its Python implementation is not symmetric in `{params[0]}`, `{params[1]}`: "
                   f"`{norm(rets[0].value)}` differs from the same expression with the operands exchanged - it is right for one operand order only", op.module.loc(fn))
     col.cur.analysed["python_defaults_of_commutative_ops"] = n
+
+
+# ---------------------------------------------------------------------- returning the operand unchanged from a rule for a class of ops
+SINGLETON_IDENTITY_NAMES = {"sum", "prod", "amax", "amin", "logsumexp", "mean", "all", "any"}
+
+
+def r_operand_returned_unchanged(prog: Program, col: Collector, refs: Refs, cat: Catalogue, rule: str):
+    """A rule registered for (Unary, <class of ops>, ...) that returns its operand unchanged claims that every op of the class is
+    the identity there.  Without a test on the op itself that is only true if every op of the class is (an associative op or the
+    fold of one, which are the identity on a single element; var and std are not)."""
+    col.rule(rule, "a rule for a class of unary ops returns its operand unchanged only for ops that are the identity there", floor=2)
+    seen = set()
+    n = 0
+    for reg in cat.registrations:
+        f = reg.target
+        if f is None or not reg.pattern or len(reg.pattern) < 2 or isinstance(f.node, ast.Lambda) or f.fq in seen:
+            continue
+        if not reg.registry.startswith("funsor.interpretations."):
+            continue
+        head = refs.resolve(reg.pattern[0]) if isinstance(reg.pattern[0], (ast.Name, ast.Attribute)) else None
+        if head != "funsor.terms.Unary" or len(f.positional) < 2:
+            continue
+        ref = cat.op_class_ref(refs.resolve(reg.pattern[1]) if isinstance(reg.pattern[1], (ast.Name, ast.Attribute)) else None)
+        if ref is None:
+            continue
+        seen.add(f.fq)
+        under = cat.ops_under(ref)
+        opn, operands = f.positional[0], set(f.positional[1:])
+        defs: Dict[str, List[ast.AST]] = {}
+        for x in walk_no_nested(f.node):
+            if isinstance(x, ast.Assign) and len(x.targets) == 1 and isinstance(x.targets[0], ast.Name):
+                defs.setdefault(x.targets[0].id, []).append(x.value)
+
+        def reads_op_directly(e, depth=0) -> bool:
+            """op compared / tested / its parameters read - not merely passed on to another function"""
+            for x in ast.walk(e):
+                if isinstance(x, ast.Name) and x.id == opn:
+                    p = f.module.parent.get(x)
+                    if isinstance(p, ast.Compare) or (isinstance(p, ast.Attribute) and p.value is x) \
+                            or (isinstance(p, ast.Call) and isinstance(p.func, ast.Name) and p.func.id == "isinstance" and p.args and p.args[0] is x):
+                        return True
+                if isinstance(x, ast.Name) and x.id in defs and len(defs[x.id]) == 1 and depth < 3 and x.id != opn:
+                    if reads_op_directly(defs[x.id][0], depth + 1):
+                        return True
+            return False
+
+        for r in walk_no_nested(f.node):
+            if not (isinstance(r, ast.Return) and isinstance(r.value, ast.Name) and r.value.id in operands):
+                continue
+            n += 1
+            guards = [a for a in f.module.ancestors(r) if isinstance(a, ast.If) and f.module.enclosing_function(a) is f.node]
+            construct = f"{f.fq}::return {r.value.id}"
+            if any(reads_op_directly(g.test) for g in guards):
+                col.ok(construct, "returned unchanged under a test on the op itself", f.loc(r))
+                continue
+            bad = []
+            for o in under:
+                ab = axioms.identify(cat, o)
+                if ab in axioms.ASSOCIATIVE or ab in set(axioms.FOLD.values()) or o.name in SINGLETON_IDENTITY_NAMES:
+                    continue
+                if isinstance(o.impl, ast.FunctionDef) and all(isinstance(s_, (ast.Raise, ast.Expr)) for s_ in o.impl.body):
+                    continue  # a placeholder that is never evaluated (its implementation only raises)
+                bad.append(o.var)
+            col.check(not bad, construct, f"every op the rule is selected for ({len(under)}) is the identity on a single element",
+                      f"the operand is returned unchanged for every op of the class, without a test on `{opn}`, but {sorted(bad)[:4]} "
+                      f"{'is' if len(bad) == 1 else 'are'} not the identity there (the variance of one element is 0, not the element)", f.loc(r))
+    col.cur.analysed["operand_returned_unchanged_sites"] = n
+
+
+# ---------------------------------------------------------------------- roles of sum_op / prod_op
+def r_semiring_roles(prog: Program, col: Collector, refs: Refs, cat: Catalogue, rule: str):
+    """Functions of the package that take a semiring as parameters named sum_op and prod_op: (a) a call that forwards both to a callee
+    with parameters of the same names must not exchange them; (b) a rule for MarkovProduct - the product over time of the
+    transition factor - reduces over its time variable with the product op."""
+    col.rule(rule, "sum_op / prod_op keep their roles when forwarded; a Markov product is reduced over time with the product op", floor=10)
+    n = 0
+    for f in prog.funcs.values():
+        if isinstance(f.node, ast.Lambda) or not {"sum_op", "prod_op"} <= set(f.params):
+            continue
+        for c in walk_no_nested(f.node):
+            if not isinstance(c, ast.Call):
+                continue
+            callee = refs.resolve(c.func) if isinstance(c.func, (ast.Name, ast.Attribute)) else None
+            lk = prog.lookup(callee) if callee else None
+            if not (lk and lk[0] == "func"):
+                continue
+            g = lk[1]
+            if not {"sum_op", "prod_op"} <= set(g.params) or any(isinstance(a, ast.Starred) for a in c.args):
+                continue
+            passed = {}
+            for i, a in enumerate(c.args):
+                if i < len(g.positional):
+                    passed[g.positional[i]] = a
+            for k in c.keywords:
+                if k.arg:
+                    passed[k.arg] = k.value
+            n += 1
+            swapped = [(p, norm(a)) for p, a in passed.items() if p in ("sum_op", "prod_op") and isinstance(a, ast.Name) and a.id in ("sum_op", "prod_op") and a.id != p]
+            col.check(not swapped, f"{f.fq}::{norm(c.func)}(...)", "sum_op and prod_op are forwarded under their own roles",
+                      f"`{swapped[0][1]}` is passed as `{swapped[0][0]}` of {g.fq}: the two ops of the semiring are exchanged" if swapped else "", f.loc(c), nontrivial=False)
+    for reg in cat.registrations:
+        f = reg.target
+        if f is None or not reg.pattern or isinstance(f.node, ast.Lambda):
+            continue
+        head = refs.resolve(reg.pattern[0]) if isinstance(reg.pattern[0], (ast.Name, ast.Attribute)) else None
+        if head != "funsor.sum_product.MarkovProduct" or not reg.registry.startswith("funsor.interpretations."):
+            continue
+        tc = cat.term_classes.get(head)
+        fields = tc.fields if tc else []
+        if len(f.positional) != len(fields) or "prod_op" not in fields or "time" not in fields:
+            continue
+        role = dict(zip(fields, f.positional))
+        for c in walk_no_nested(f.node):
+            if isinstance(c, ast.Call) and isinstance(c.func, ast.Attribute) and c.func.attr == "reduce" and len(c.args) >= 2 \
+                    and any(isinstance(x, ast.Name) and x.id == role["time"] for x in ast.walk(c.args[1])):
+                n += 1
+                col.check(isinstance(c.args[0], ast.Name) and c.args[0].id == role["prod_op"], f"{f.fq}::{norm(c)}",
+                          "the factor is reduced over time with the product op",
+                          f"the transition factor is reduced over the time variable with `{norm(c.args[0])}`, not with the product op `{role['prod_op']}`: "
+                          "a Markov product is the product over time steps", f.loc(c))
+    col.cur.analysed["semiring_role_sites"] = n
+
+
+# ---------------------------------------------------------------------- Reduce rules do not silently drop absent variables
+def r_reduce_rules_keep_absent_vars(prog: Program, col: Collector, refs: Refs, cat: Catalogue, rule: str):
+    """A rule registered for Reduce receives ALL reduced variables, including those its operand does not mention; reducing over such a
+    variable multiplies (add), scales (logaddexp) or powers (mul) the operand.  A rule that narrows the parameter as passed to the
+    operand's own variables (`reduced_vars & arg.input_vars`, `.intersection(arg.inputs)`, a filter on membership) before the
+    compensating helper has been applied drops that factor."""
+    from ..dataflow import param_deps
+    from ..cfg import CFG
+    col.rule(rule, "a Reduce rule narrows the reduced variables to those of its operand only after compensating for the absent ones", floor=4)
+    helper = _find_reduce_helper(prog, refs, cat)
+    seen = set()
+    n = 0
+    for r in cat.registrations:
+        f = r.target
+        if f is None or not r.pattern or isinstance(f.node, ast.Lambda) or f.fq in seen:
+            continue
+        if refs.resolve(r.pattern[0]) != "funsor.terms.Reduce" or not r.registry.startswith("funsor.interpretations.") or len(f.positional) < 3:
+            continue
+        seen.add(f.fq)
+        n += 1
+        opn, argn, rvn = f.positional[:3]
+        cfg = None
+        bad = None
+        for st in walk_no_nested(f.node):
+            if not isinstance(st, (ast.Assign, ast.Return, ast.Expr, ast.AugAssign)):
+                continue
+            for e in ast.walk(st):
+                narrowing = None
+                if isinstance(e, ast.BinOp) and isinstance(e.op, ast.BitAnd):
+                    sides = [e.left, e.right]
+                    if any(isinstance(x, ast.Name) and x.id == rvn for x in sides) and any(
+                            isinstance(y, ast.Attribute) and y.attr in ("input_vars", "inputs") and isinstance(y.value, ast.Name) and y.value.id == argn
+                            for x in sides for y in ast.walk(x)):
+                        narrowing = e
+                if isinstance(e, ast.Call) and isinstance(e.func, ast.Attribute) and e.func.attr == "intersection" and isinstance(e.func.value, ast.Name) and e.func.value.id == rvn \
+                        and any(isinstance(y, ast.Attribute) and y.attr in ("input_vars", "inputs") and isinstance(y.value, ast.Name) and y.value.id == argn for a in e.args for y in ast.walk(a)):
+                    narrowing = e
+                if isinstance(e, (ast.GeneratorExp, ast.ListComp, ast.SetComp)) and len(e.generators) == 1 and isinstance(e.generators[0].iter, ast.Name) \
+                        and e.generators[0].iter.id == rvn and any(
+                            isinstance(c, ast.Compare) and isinstance(c.ops[0], ast.In) and any(isinstance(y, ast.Attribute) and y.attr in ("input_vars", "inputs")
+                                                                                                and isinstance(y.value, ast.Name) and y.value.id == argn for y in ast.walk(c.comparators[0]))
+                            for c in e.generators[0].ifs):
+                    narrowing = e
+                if narrowing is None:
+                    continue
+                cfg = cfg or CFG(f.node)
+                deps = param_deps(f, ast.Name(id=rvn, ctx=ast.Load()), st, cfg=cfg)
+                if rvn in deps:
+                    bad = (st, narrowing)
+        construct = f"{f.fq}::{rvn}"
+        if bad:
+            col.violation(construct, f"`{norm(bad[1])}` narrows the reduced variables as passed to the rule to those `{argn}` mentions: reducing over a variable the operand does not "
+                          f"mention is dropped instead of being compensated ({helper.name} multiplies / powers by the size of the variable) - e.g. a sum over an absent variable of "
+                          "size 4 comes out 4 times too small", f.loc(bad[0]))
+        else:
+            col.ok(construct, "the reduced variables are not narrowed to the operand's before the absent ones are accounted for", f.loc(), nontrivial=False)
+    col.cur.analysed["reduce_rules"] = n
+
+
+# ---------------------------------------------------------------------- a product of sizes is taken over a sequence, not a set
+def r_size_product_over_sequence(prog: Program, col: Collector, refs: Refs, cat: Catalogue, rule: str):
+    """The number of points of several variables is the product of their sizes WITH repetition: folding a set of sizes
+    (`reduce(mul, {v.output.size ... for v in vars})`, `prod(set(...))`) collapses variables of equal size (3 * 3 becomes 3)."""
+    col.rule(rule, "a product of variable sizes is folded over a sequence (equal sizes are not collapsed)", floor=1)
+    n = 0
+    for f in prog.funcs.values():
+        if isinstance(f.node, ast.Lambda):
+            continue
+        for c in walk_no_nested(f.node):
+            if not isinstance(c, ast.Call):
+                continue
+            callee = refs.resolve(c.func) if isinstance(c.func, (ast.Name, ast.Attribute)) else None
+            it = None
+            if callee == "functools.reduce" and len(c.args) >= 2:
+                fold = c.args[0]
+                r0 = refs.resolve(fold) if isinstance(fold, (ast.Name, ast.Attribute)) else None
+                o = cat.resolve_op(f.module, fold) if isinstance(fold, (ast.Name, ast.Attribute)) else None
+                if (o is not None and axioms.identify(cat, o) == "MUL") or r0 in ("operator.mul",):
+                    it = c.args[1]
+            elif callee in ("math.prod", "numpy.prod") and c.args:
+                it = c.args[0]
+            if it is None:
+                continue
+            elt = it.elt if isinstance(it, (ast.SetComp, ast.ListComp, ast.GeneratorExp)) else None
+            inner = it
+            if isinstance(it, ast.Call) and isinstance(it.func, ast.Name) and it.func.id in ("set", "frozenset", "list", "tuple") and it.args:
+                inner = it.args[0]
+                elt = inner.elt if isinstance(inner, (ast.SetComp, ast.ListComp, ast.GeneratorExp)) else elt
+            sizes = elt is not None and any((isinstance(x, ast.Attribute) and x.attr in ("size", "dtype", "num_elements")) or (isinstance(x, ast.BinOp) and isinstance(x.op, ast.Pow))
+                                            for x in ast.walk(elt))
+            if not sizes:
+                continue
+            n += 1
+            is_set = isinstance(it, ast.SetComp) or isinstance(inner, ast.SetComp) or (isinstance(it, ast.Call) and isinstance(it.func, ast.Name) and it.func.id in ("set", "frozenset"))
+            col.check(not is_set, f"{f.fq}::{norm(c)[:60]}", "the sizes are folded over a sequence",
+                      "the product is folded over a SET of sizes: two variables of the same size contribute once (the multiplicity of reducing over i and j, both of size 3, "
+                      "becomes 3 instead of 9)", f.loc(c))
+    col.cur.analysed["size_products"] = n
+
+
+# ---------------------------------------------------------------------- a Contraction rule accounts for ALL reduced variables
+def _flows_whole_into_call(f: Func, x: ast.AST, depth: int = 0) -> bool:
+    """does the value of expression node `x` reach an argument of a call un-intersected: directly, as the LEFT operand of `-` / `|`,
+    through a conditional expression, or through a local it is assigned to"""
+    if depth > 4:
+        return False
+    mod = f.module
+    cur = x
+    while True:
+        p = mod.parent.get(cur)
+        if isinstance(p, ast.BinOp) and isinstance(p.op, (ast.Sub, ast.BitOr)) and (p.left is cur or isinstance(p.op, ast.BitOr)):
+            cur = p
+            continue
+        if isinstance(p, ast.IfExp) and (p.body is cur or p.orelse is cur):
+            cur = p
+            continue
+        if isinstance(p, ast.Starred):
+            cur = p
+            continue
+        break
+    if isinstance(p, ast.Call) and (cur in p.args or any(k.value is cur for k in p.keywords)):
+        fn = p.func.attr if isinstance(p.func, ast.Attribute) else (p.func.id if isinstance(p.func, ast.Name) else "")
+        if fn in ("frozenset", "set", "tuple", "list", "sorted", "len", "bool", "isinstance"):
+            return _flows_whole_into_call(f, p, depth + 1) if fn not in ("len", "bool", "isinstance") else False
+        return True
+    if isinstance(p, ast.keyword):
+        return True
+    if isinstance(p, ast.Return):
+        return True
+    if isinstance(p, (ast.Assign, ast.AugAssign)):
+        tgts = p.targets if isinstance(p, ast.Assign) else [p.target]
+        for t in tgts:
+            if isinstance(t, ast.Name):
+                for y in ast.walk(f.node):
+                    if isinstance(y, ast.Name) and y.id == t.id and isinstance(y.ctx, ast.Load) and y is not x and getattr(y, "lineno", 0) >= p.lineno:
+                        pp = mod.parent.get(y)
+                        if isinstance(pp, ast.BinOp) and isinstance(pp.op, ast.BitAnd):
+                            continue
+                        if _flows_whole_into_call(f, y, depth + 1):
+                            return True
+    return False
+
+
+def r_contraction_rules_cover_reduced_vars(prog: Program, col: Collector, refs: Refs, cat: Catalogue, rule: str):
+    """A rule registered for Contraction receives the set of ALL reduced variables, including ones no operand mentions (they
+    contribute a multiplicity).  A rule that rebuilds the contraction from pieces and uses that parameter only intersected with the
+    operands' variables (or through counters filled from the operands' inputs) never reduces such a variable; some use of the
+    parameter must be whole (`reduced_vars`, `reduced_vars - X`, `reduced_vars | X`) and flow into a reduction."""
+    col.rule(rule, "a Contraction rule that reduces computed subsets also reduces the variables no operand mentions", floor=5)
+    seen = set()
+    n = 0
+    for r in cat.registrations:
+        f = r.target
+        if f is None or not r.pattern or isinstance(f.node, ast.Lambda) or f.fq in seen or len(f.positional) < 4:
+            continue
+        if refs.resolve(r.pattern[0]) != "funsor.cnf.Contraction":
+            continue
+        if not (r.registry.startswith("funsor.interpretations.") or r.registry.startswith("funsor.optimizer.")):
+            continue
+        seen.add(f.fq)
+        rv = f.positional[2]
+        rets = [x for x in walk_no_nested(f.node) if isinstance(x, ast.Return)]
+        if all(x.value is None or (isinstance(x.value, ast.Constant) and x.value.value is None) for x in rets):
+            continue  # the rule only declines
+        # aliases of the parameter (x = reduced_vars)
+        names = {rv}
+        for st in walk_no_nested(f.node):
+            if isinstance(st, ast.Assign) and len(st.targets) == 1 and isinstance(st.targets[0], ast.Name) and isinstance(st.value, ast.Name) and st.value.id in names:
+                names.add(st.targets[0].id)
+        narrow, whole = [], []
+        for x in ast.walk(f.node):
+            if not (isinstance(x, ast.Name) and x.id in names and isinstance(x.ctx, ast.Load)):
+                continue
+            p = f.module.parent.get(x)
+            if isinstance(p, ast.BinOp) and isinstance(p.op, ast.BitAnd):
+                narrow.append(x)
+            elif isinstance(p, ast.Attribute) and p.value is x and p.attr in ("intersection", "isdisjoint", "issubset", "issuperset"):
+                narrow.append(x)
+            elif isinstance(p, ast.Compare) and x in p.comparators and all(isinstance(o, (ast.In, ast.NotIn)) for o in p.ops):
+                narrow.append(x)
+            elif isinstance(p, (ast.If, ast.IfExp, ast.BoolOp, ast.UnaryOp, ast.Assert)) :
+                pass  # truth test
+            elif isinstance(p, ast.Compare):
+                pass
+            elif isinstance(p, ast.AugAssign) and p.target is x:
+                pass
+            elif _flows_whole_into_call(f, x):
+                whole.append(x)
+        if not narrow:
+            continue
+        n += 1
+        construct = f"{f.fq}::{rv}"
+        col.check(bool(whole), construct, f"besides {len(narrow)} intersection(s) with the operands' variables, `{rv}` is also used whole ({len(whole)} use(s))",
+                  f"`{rv}` is only ever intersected with / tested against the variables of the operands ({len(narrow)} use(s)): a reduced variable that no operand mentions is "
+                  "never reduced by the rebuilt contraction, so its multiplicity (n-fold sum / power) is dropped", f.loc(narrow[0]))
+    col.cur.analysed["contraction_rules_with_subsets"] = n
